@@ -2,3 +2,4 @@
 import BindgenModel.Model.BitfieldUnit
 import BindgenModel.Model.Depfile
 import BindgenModel.Model.Includes
+import BindgenModel.Model.CDecl
